@@ -27,6 +27,8 @@ DEEP_SHARDS = 64          # deep3 has about a million inputs (each exported with
 CFG = {
     "quick2": dict(Temps={0, 100, 200}, CPs={1, 2}, DTCs={0, 50}, MaxStreams=2, NZones=2, Ladders={0, 1, 2, 3, 4, 6, 7, 8, 9, 10}),
     "quick3": dict(Temps={0, 100, 200}, CPs={1, 2}, DTCs={0, 50}, MaxStreams=3, NZones=2, Ladders={0, 1, 2, 4, 9}),
+    # one zone, a cold utility with a large contribution of its own (ladder 11): used by C03 only (known finding KF-C03-cold-utility-contribution)
+    "cusign": dict(Temps={0, 100, 200}, CPs={1, 2}, DTCs={0, 50}, MaxStreams=2, NZones=1, Ladders={11}),
     "near": dict(Temps={120, 130, 140}, CPs={1, 2}, DTCs={0}, MaxStreams=2, NZones=2, Ladders={5}),
     # isothermal (latent) streams: 1-unit wide in the specification, passed with supply == target where the code's own rule applies
     "latent": dict(Temps={0, 100, 200}, CPs={1}, DTCs={0, 50}, LatentCPs={150}, MaxStreams=2, NZones=2, Ladders={0, 2}),
@@ -282,6 +284,7 @@ def judge(events):
 
 
 OPTION_SETS = [
+    {"DO_DIRECT_SITE_TARGETING": False},      # accepted and without effect on the pinned tree; a change that wires it must keep the service total (seed C14f)
     {"DO_BALANCED_CC": False}, {"DO_AREA_TARGETING": True}, {"DO_BALANCED_CC": False, "DO_AREA_TARGETING": True},
     {"DO_VERTICAL_GCC": True}, {"DO_ASSITED_HT": True}, {"DO_VERTICAL_GCC": True, "DO_ASSITED_HT": True, "DO_AREA_TARGETING": True},
     {"DO_EXERGY_TARGETING": True}, {"DO_DIRECT_SITE_TARGETING": False},
